@@ -6,20 +6,35 @@ import subprocess
 import vlib
 
 META = {
-    "engine": "LinAlg.tla, LinAlgGauss.tla, LinAlgCases.tla, LinAlgRot.tla, Trace_LinAlg.tla",
+    "engine": "LinAlg.tla, LinAlgGauss.tla, LinAlgCases.tla, LinAlgRot.tla, LinAlgGeom.tla, LinAlgRigid.tla, LinAlgNewton.tla, Trace_LinAlg.tla",
     "technique": "exact linear algebra over prime fields in TLA+: TLC model-checks an implementation-shaped model of solve_ "
                  "(permutation vector, every non-zero pivot choice) against the adjugate solution for all nonsingular systems "
                  "of a small field, generates every small matrix with determinant / inverse / solution / product / normal-equation "
                  "solution and exact rational rotations (Euler triples of all 12 axis orders x fixed/moving frames, rational unit "
                  "quaternions) for replay into the ASL templates (instantiated over a Z_p scalar type, resp. double/float), and "
-                 "validates recorded executions over Z_32749 by evaluating the algebraic postconditions exactly",
+                 "validates recorded executions over Z_32749 by evaluating the algebraic postconditions exactly; growth: the "
+                 "geometry layer around the matrices (Vec2/3/4, Matrix4/Matrix3 as affine and projective transforms, quaternion "
+                 "algebra, Pose, Complex as Z_p[i], the element-wise Matrix_ operations) as exact Z_p algebra with the laws as "
+                 "invariants (LinAlgGeom), similarity transforms / 2-D transforms / slerp from exact rational rotations "
+                 "(LinAlgRigid), and solveZero on polynomial systems whose complete rational root sets TLC proves (LinAlgNewton)",
     "design_ref": "DESIGN.md section 6, C20",
     "level_text": "TLC checks M adj(M) = det(M) I, det(AB) = det(A)det(B), Laplace = elimination determinant, A solve(A,b) = b for "
                   "every pivot choice and the normal equations on all matrices of the configured small fields, and the exact "
                   "rotation identities; every generated case is executed on Matrix3_/Matrix4_/Matrix_/Quaternion_ with exact "
                   "(Z_p) or toleranced (exact rational rotation vs double 1e-9 / float 1e-4) comparison; recorded random "
                   "executions over Z_32749 (systems up to 12x12, row exchanges, singular and least-squares ones) are accepted "
-                  "by Trace_LinAlg.tla.",
+                  "by Trace_LinAlg.tla. Growth: LinAlgGeom.tla generates Vec3/Vec4/Vec2, affine / projective Matrix4 and Matrix3, "
+                  "quaternion, Pose, Complex and Matrix_ cases over Z_32719 and Z_7 (Z_3) with all expected values and checks the "
+                  "laws on each of them (Lagrange identity, triple product = determinant, compare agrees with ==, inverse transform "
+                  "undoes the transform, (L|t)^-1 = (L^-1|-L^-1 t), quaternion product associative with multiplicative norm and "
+                  "(q1 q2).matrix() = q1.matrix() q2.matrix(), Z_p[i] field laws, Matrix_ dimension rules); LinAlgRigid.tla does the "
+                  "same over the rationals for translate * rotate * scale in 3-D and 2-D, Pose round trips, polar forms and slerp "
+                  "(end points and the exact half-way quaternion on both arcs) compared in double/float; LinAlgNewton.tla proves for "
+                  "every generated polynomial system that the stated rational roots are the complete, simple, separated root set "
+                  "and publishes start points and thresholds against which solveZero (vector and scalar form, double and float) is "
+                  "run: returned point within KX*maxerr of the root the start was placed at, residual within KF*maxerr, evaluation "
+                  "budget 1 + maxiter (n + 1); recorded vec / aff / cplx / qalg events are validated by Trace_LinAlg.tla through "
+                  "the operators of LinAlgGeom.tla.",
     "level_note": "The floating-point clause of the property (residuals within a small multiple of machine epsilon times the "
                   "condition number, for all well-conditioned float/double matrices) is outside what a TLA+ specification can "
                   "decide (no reals/floats in TLC; DESIGN.md section 8) and is NOT checked: only the exact algebraic identities "
@@ -28,20 +43,26 @@ META = {
                   "are multiples of p) and exactly representable rotations (multiples of 90 degrees, Pythagorean angles, rational "
                   "unit quaternions; fixed generous tolerance) are. TLC integers are 32-bit, hence p = 32749 instead of 2^61-1. "
                   "Pivot choice: the code's max-|entry| rule is replaced by an arbitrary keyed order on Z_p; the spec allows any "
-                  "non-zero pivot. q and -q are treated as the same rotation. Bounded scopes as in spec/MC_LinAlg*.cfg.",
+                  "non-zero pivot. q and -q are treated as the same rotation. Bounded scopes as in spec/MC_LinAlg*.cfg. "
+                  "solveZero: TLC does not run the iteration (no reals); convergence is required only for linear systems (any "
+                  "start; one Newton step in double) and for starts within 1/32 per coordinate of a simple root of the listed "
+                  "families; float only for well-conditioned systems. Undocumented behaviour (division by a zero scalar, h2c with "
+                  "w = 0, inverse of a singular matrix, solve with a singular A, non-converging starts) is left unconstrained.",
 }
 
 
-def _models(ctx, jobs, workers):
+def _models(ctx, jobs, workers, parallel=8):
     """Run several TLC model-checking jobs side by side ((spec, cfg, emit path or None, timeout)), then do the same
     bookkeeping as Ctx.model for each (success required, no action left uncovered, state counters)."""
     def one(j):
-        spec, cfg, emit, timeout = j
-        return j, vlib.tlc(spec, cfg, emit_to=emit, timeout=timeout, workers=workers, xmx="6g", coverage=True)
+        spec, cfg, emit, timeout = j[:4]
+        return j, vlib.tlc(spec, cfg, emit_to=emit, timeout=timeout, workers=workers, xmx=(j[4] if len(j) > 4 else "6g"), coverage=True)
 
-    with cf.ThreadPoolExecutor(len(jobs)) as ex:
+    # at most `parallel` JVMs at a time (the machine is shared: eleven 6 GB JVMs side by side have been OOM-killed)
+    with cf.ThreadPoolExecutor(min(len(jobs), parallel)) as ex:
         results = list(ex.map(one, jobs))
-    for (spec, cfg, emit, timeout), r in results:
+    for j, r in results:
+        spec, cfg, emit, timeout = j[:4]
         what = "%s/%s" % (spec, cfg)
         vlib.tlc_expect_ok(r, what)
         z = vlib.zero_coverage(r)
@@ -54,7 +75,7 @@ def _models(ctx, jobs, workers):
 
 
 # a sample per case kind, preferring an informative one (regular matrix, non-zero determinants, non-trivial rotation)
-PREFER = {"sq": '"inv":[1', "lsq": '"reg":1', "mul": '"detab":1', "euler": '"den":65', "quat": '"tie":0', "axis": '"den":45'}
+PREFER = {"newton": '"fam":"circle"', "slerp": '"dot":-', "aff": '"p":32719', "sq": '"inv":[1', "lsq": '"reg":1', "mul": '"detab":1', "euler": '"den":65', "quat": '"tie":0', "axis": '"den":45'}
 
 
 def _first_of_kind(path, kinds):
@@ -76,6 +97,16 @@ def _first_of_kind(path, kinds):
 def run(ctx):
     lib = vlib.build_lib("asan")
     rep = vlib.build_harness(lib, "c20_replay", ["c20_replay.cpp"])
+    grep = vlib.build_harness(lib, "c20_geom_replay", ["c20_geom_replay.cpp"])
+    nrep = vlib.build_harness(lib, "c20_newton_replay", ["c20_newton_replay.cpp"])
+    pose_broken = None
+    try:
+        rrep = vlib.build_harness(lib, "c20_rigid_replay", ["c20_rigid_replay.cpp"])
+    except vlib.HarnessError as e:
+        # the only member the full harness instantiates and the reduced one does not is Pose_::interpolate: if the reduced
+        # harness builds, the library member itself cannot be compiled - a finding, not a machinery failure
+        rrep = vlib.build_harness(lib, "c20_rigid_replay_nopose", ["c20_rigid_replay.cpp"], extra=("-DC20_NO_POSE_INTERPOLATE",))
+        pose_broken = str(e)
     rec = vlib.build_harness(lib, "c20_record", ["c20_record.cpp"])
     ctx.exhaustive = True
     ctx.rule = ("one case per generated matrix / matrix pair / least-squares system / Euler triple x convention / unit quaternion "
@@ -93,8 +124,15 @@ def run(ctx):
     jobs = [("LinAlgGauss", g, None, to) for g in gauss]
     jobs += [("LinAlgCases", c, "%s-%d.cases" % (alg, i), to) for i, c in enumerate(cases)]
     jobs += [("LinAlgRot", ctx.pick("MC_LinAlgRot_quick", "MC_LinAlgRot_thorough"), rot, to)]
+    # growth: the geometry layer (vectors, affine / projective transforms, quaternion algebra, Complex, Matrix_ element-wise)
+    geom = ctx.pick(["MC_LinAlgGeom_quick", "MC_LinAlgGeom_q7"], ["MC_LinAlgGeom_thorough", "MC_LinAlgGeom_t7", "MC_LinAlgGeom_t3"])
+    jobs += [("LinAlgGeom", g, "%s-geom-%d.cases" % (alg, i), to, "3g") for i, g in enumerate(geom)]
+    newton = os.path.join(ctx.tmp, "c20-newton.cases")
+    rigid = os.path.join(ctx.tmp, "c20-rigid.cases")
+    jobs += [("LinAlgNewton", "MC_LinAlgNewton", newton, to, "3g")]
+    jobs += [("LinAlgRigid", ctx.pick("MC_LinAlgRigid_quick", "MC_LinAlgRigid_thorough"), rigid, to, "3g")]
     # 1. model checking: the elimination model under every pivot choice; the case generators with their identities
-    _models(ctx, jobs, workers=ctx.pick(4, 6))
+    _models(ctx, jobs, workers=ctx.pick(4, 6), parallel=ctx.pick(8, 6))
     samples = []
     # 2. R: every generated case on the real templates
     for i, c in enumerate(cases):
@@ -102,11 +140,26 @@ def run(ctx):
         samples += _first_of_kind(path, ["sq", "lsq"] if i == 0 else ["mul"])
         ctx.replay(rep, path, label="R/" + c.replace("MC_", ""), timeout=ctx.pick(900, 3000))
         os.unlink(path)
+    for i, g in enumerate(geom):
+        path = "%s-geom-%d.cases" % (alg, i)
+        if i == 0:
+            samples += [x[:400] for x in _first_of_kind(path, ["aff"])]
+        ctx.replay(grep, path, label="R/" + g.replace("MC_", ""), timeout=ctx.pick(900, 3000))
+        os.unlink(path)
+    samples += [x[:400] for x in _first_of_kind(newton, ["newton"]) + _first_of_kind(rigid, ["slerp"])]
+    ctx.replay(nrep, newton, label="R/LinAlgNewton", timeout=ctx.pick(900, 3000))
+    os.unlink(newton)
+    if pose_broken:
+        ctx.violation("Pose_<T>::interpolate cannot be instantiated: harness/c20_rigid_replay.cpp compiles only with "
+                      "-DC20_NO_POSE_INTERPOLATE (spec/LinAlgRigid.tla, kind \"slerp\": Pose interpolation at t = 0, 1/2, 1)",
+                      content=json.dumps({"k": "pose-interpolate-compile", "log": pose_broken[-3000:]}) + "\n")
+    ctx.replay(rrep, rigid, label="R/LinAlgRigid", timeout=ctx.pick(900, 3000))
+    os.unlink(rigid)
     samples += _first_of_kind(rot, ["euler", "quat", "axis"])
     ctx.replay(rep, rot, label="R/LinAlgRot", timeout=ctx.pick(900, 3000))
     os.unlink(rot)
     # 3. V: recorded executions over Z_32749 validated by TLC
-    files = ctx.record(rec, ctx.pick(10, 48), ctx.pick(1500, 6000), "V/LinAlg")
+    files = ctx.record(rec, ctx.pick(10, 48), ctx.pick(1900, 7500), "V/LinAlg")   # (23% of the events are the growth kinds vec / aff / cplx / qalg)
     if files:
         with open(files[0]) as f:
             for ln in f:
@@ -124,6 +177,11 @@ def run(ctx):
         "rotations: only exactly representable ones (multiples of 90 degrees, Pythagorean angles, rational unit quaternions); "
         "double/float results are compared with the exact rational matrix within 1e-9 / 1e-4 (x10 after a round trip); "
         "q and -q are the same rotation",
+        "growth (LinAlgGeom / LinAlgRigid / LinAlgNewton): Z_p values of the generated cases come from a fixed scattering function "
+        "(every fifth case from {0, 1, -1, 2}); Complex is exercised over Z_p[i] (a field for p = 32719, 7, 3 = 3 mod 4; over "
+        "Z_32749 in recorded traces division is required only when |y|^2 != 0); solveZero thresholds KX = KF = 100 times maxerr "
+        "(the method stops on a small residual or a small step, hence condition-number factors); root sets are complete by the "
+        "Bezout bound (checked by TLC per system)",
         "3 x 3 products whose right operand is not affine (last row other than 0 0 1) carry the spec-level hazard tag "
         "Matrix3GeneralProduct (Matrix3_::operator* ignored that row before fixes/C20-matrix3-product)",
     ]
@@ -149,6 +207,21 @@ def replay(path):
                            env=vlib.run_env())
         print("recorder exit %d" % p.returncode)
         return 1 if p.returncode != 0 else 0
-    rep = vlib.build_harness(lib, "c20_replay", ["c20_replay.cpp"])
+    head = open(path).readline()
+    hname = "c20_replay"
+    if 'pose-interpolate-compile' in head:
+        try:
+            vlib.build_harness(lib, "c20_rigid_replay", ["c20_rigid_replay.cpp"])
+        except vlib.HarnessError as e:
+            print("Pose_::interpolate still does not compile:\n" + str(e)[-1500:])
+            return 1
+        print("harness/c20_rigid_replay.cpp (with Pose_::interpolate) builds")
+        return 0
+    for kinds, name in ((('"k":"vec"', '"k":"aff"', '"k":"cplx"', '"k":"dyn"', '"q1":'), "c20_geom_replay"),
+                        (('"k":"newton"', '"k":"secant"'), "c20_newton_replay"),
+                        (('"k":"rigid"', '"k":"plane"', '"k":"slerp"'), "c20_rigid_replay")):
+        if any(k in head for k in kinds):
+            hname = name
+    rep = vlib.build_harness(lib, hname, [hname + ".cpp"])
     r = subprocess.run([rep, "--single", path], env=vlib.run_env())
     return 1 if r.returncode == 1 else (0 if r.returncode == 0 else 2)
